@@ -1,8 +1,8 @@
 #!/bin/bash
 # tools/run_seeded.sh [dir...] : runs, for every seeded change, the quick check of the property it breaks (plus the checks
 # named in seeded/<id>/also) against a scratch copy of /repo with the change applied, and records the verdicts in
-# seeded/RESULTS.tsv (mutant, check, exit code, first violation signature).
-cd /verif
+# seeded/RESULTS.tsv, or $RESULTS (mutant, check, exit code, first violation signature).
+cd /verif; R=${RESULTS:-seeded/RESULTS.tsv}; touch $R
 dirs="$@"; [ -z "$dirs" ] && dirs=$(ls -d seeded/C*-m*)
 for d in $dirs; do
   id=$(basename $d); prop=${id%%-*}
@@ -10,9 +10,9 @@ for d in $dirs; do
   out=$(tools/try_mutant.sh $d/patch.diff $checks 2>&1)
   echo "$out" | grep -E "^C[0-9]+ exit=" | while read -r line; do
     c=$(echo "$line" | cut -d' ' -f1); e=$(echo "$line" | sed 's/.*exit=\([0-9]*\).*/\1/'); sig=$(echo "$line" | sed -n 's/.*sig: \(.*\) | .*/\1/p')
-    grep -v -P "^$id\t$c\t" seeded/RESULTS.tsv > /tmp/_r.tsv 2>/dev/null; mv /tmp/_r.tsv seeded/RESULTS.tsv 2>/dev/null
-    printf "%s\t%s\t%s\t%s\n" "$id" "$c" "$e" "$sig" >> seeded/RESULTS.tsv
+    grep -v -P "^$id\t$c\t" $R > /tmp/_r$LANE.tsv 2>/dev/null; mv /tmp/_r$LANE.tsv $R 2>/dev/null
+    printf "%s\t%s\t%s\t%s\n" "$id" "$c" "$e" "$sig" >> $R
   done
   echo "$id: $(echo "$out" | grep -E "^C[0-9]+ exit=" | sed 's/ *|.*//' | tr '\n' ';' | cut -c1-200)"
 done
-sort -o seeded/RESULTS.tsv seeded/RESULTS.tsv
+sort -o $R $R
